@@ -49,6 +49,11 @@ func zzBlock(n int) *bchutil.Block {
 			zzMatched[i] = false // empty set
 		}
 		mb.Transactions = append(mb.Transactions, &wire.MsgTx{Version: int32(i)})
+		if !vSymbolic() {
+			// native replay: the real transaction ids
+			rh := mb.Transactions[i].TxHash()
+			zzLeaf[i] = &rh
+		}
 	}
 	return bchutil.NewBlock(mb)
 }
@@ -173,9 +178,15 @@ func ZZ_C11_build() {
 		msg, idx := NewMerkleBlockWithTxnSet(block, set)
 		zzCheckMsg("txnset", n, msg, idx, hdr)
 	case 1:
+		if !vSymbolic() {
+			return // the filter stub exists only inside the engine
+		}
 		msg, idx := NewMerkleBlockWithFilter(block, bloom.LoadFilter(nil))
 		zzCheckMsg("withfilter", n, msg, idx, hdr)
 	case 2:
+		if !vSymbolic() {
+			return
+		}
 		msg, idx := bloom.NewMerkleBlock(block, bloom.LoadFilter(nil))
 		zzCheckMsg("bloom", n, msg, idx, hdr)
 	}
